@@ -71,7 +71,12 @@ def edge_histories(edges, maxlen, tier):
 SZ = [0, 1, 63, 64, 65, 100, 511, 512, 513, 1023, 1024, 1025, 1500, 2048, 4095, 4096, 4097, 5000, 9000]
 
 
-def random_handle_history(rng, hid, ver, maxbuf, nops=40, init=None):
+def random_handle_history(rng, hid, ver, maxbuf, nops=40, init=None, derived=None):
+    """derived: some transfers go through the other methods of io::Read / Write / Seek (read_exact, read_vectored, take +
+    read_to_end, write_vectored, rewind, seek_relative), each logged as the read / write / seek it amounts to.  Decided per
+    history (every third one) so that the cache-state model, which transcribes the primitive calls only, follows the others."""
+    if derived is None:
+        derived = sum(map(ord, hid)) % 3 == 2
     f = gens.Fill()
     ops = [{"op": "open"}]
     streams = []
@@ -85,8 +90,12 @@ def random_handle_history(rng, hid, ver, maxbuf, nops=40, init=None):
         r = rng.random()
         if r < 0.22:
             ops.append({"op": "write", "runs": f.runs(rng, rng.choice(SZ[1:]))})
+            if derived and rng.random() < 0.3:
+                ops[-1]["via"] = "vectored"
         elif r < 0.40:
             ops.append({"op": "read", "n": rng.choice(SZ)})
+            if derived and rng.random() < 0.5:
+                ops[-1]["via"] = rng.choice(["exact", "vectored", "take"])
         elif r < 0.47:
             ops.append({"op": "fill_buf"})
             ops.append({"op": "consume", "n": rng.choice([1, 10, 64, 1024, 5000])})
@@ -103,6 +112,10 @@ def random_handle_history(rng, hid, ver, maxbuf, nops=40, init=None):
                 elif wh == "cur":
                     d = d if rng.random() < 0.5 else -d
                 ops.append({"op": "seek", "whence": wh, "d": d, "sym": ""})
+                if derived and wh == "cur" and rng.random() < 0.5:
+                    ops[-1]["via"] = "relative"
+                if derived and rng.random() < 0.1:
+                    ops.append({"op": "seek", "whence": "start", "d": 0, "sym": "", "via": "rewind"})
         elif r < 0.75:
             if rng.random() < 0.1:
                 ops.append({"op": "set_len", "n": 0, "sym": rng.choice(["u64max", "u64max1", "i64max"])})
@@ -121,7 +134,10 @@ def random_handle_history(rng, hid, ver, maxbuf, nops=40, init=None):
             ops.append({"op": "read_to_end"})
     ops += [{"op": "position"}, {"op": "flush"}, {"op": "fresh_read"}, {"op": "close"},
             {"op": "open_stream", "name": "a"}, {"op": "read_to_end"}]
-    return {"id": hid, "ver": ver, "maxbuf": maxbuf, "mode": "plain", "streams": streams, "ops": ops}
+    h = {"id": hid, "ver": ver, "maxbuf": maxbuf, "mode": "plain", "streams": streams, "ops": ops}
+    if derived:
+        h["nofid"] = True
+    return h
 
 
 # ---------------------------------------------------------------------------
